@@ -188,6 +188,29 @@ _r8 = {
 }
 for _k, _v in _r8.items():
     _borrow[_k] = (_borrow.get(_k, "") + " " + _v).strip()
+# rules added after the ninth seeding round (DESIGN.md 10.14)
+_r9 = {
+ "C01": "Also: the batch writer replaces a stored base interval only when it is 0.",
+ "C02": "Also evaluates the writes-and-propagates obligation of C03.R4.",
+ "C03": "Also: Timestamp.Add does not wrap below the epoch.",
+ "C04": "Also: both ends of the window are clamped on every path to a series; below FetchFromArchive no function creates an error of its own; Timestamp.Add does not wrap below the epoch.",
+ "C06": "Also evaluates the first-read obligation of C14.R5 and the validateAggregationMethod obligation of C02.R2.",
+ "C07": "Also: NewHeader validates the method and factor it was given.",
+ "C08": "Also: no success return of copy is reachable around the layout comparison; flag timestamps are parsed in UTC; each archive of a remote read is decoded into its own object.",
+ "C09": "Also: diff reads the two files it was given (source at srcRelPath, destination at destRelPath); no verdict of success around the layout comparison.",
+ "C10": "Also: one reader per matched file, indexed like the result lists.",
+ "C11": "Also: the obligations added for C08 and C10 in this round, for sum-copy and sum-diff.",
+ "C12": "Also: each archive is decoded into a fresh object; the handle keeps the decoded header; the server's request-header budget is not below net/http's default.",
+ "C13": "Also: no in-process mutex is held across the return of a function of the package.",
+ "C14": "Also: a counted decoder refuses only counts whose message cannot fit; readHeader stores the decoded header object.",
+ "C15": "Also evaluates C04.R1; a piece of a Split result other than the first is taken only after a length test.",
+ "C16": "Also evaluates the until-default obligation of C08.R3 and the reads-named-files obligation of C09.R2.",
+ "C17": "Also: the spawning loop does not reassign a list its workers read.",
+ "C18": "Also evaluates the stores-decoded-header obligation of C14.R5 and the decode-loop obligations of C12.R4.",
+ "C19": "Also: every piece between commas reaches ParseArchiveInfo; timestamp texts are parsed in UTC.",
+}
+for _k, _v in _r9.items():
+    _borrow[_k] = (_borrow.get(_k, "") + " " + _v).strip()
 for _k, _v in _borrow.items():
     _extra[_k] = (_extra.get(_k, "") + " " + _v).strip()
 _re = "Every property also evaluates <id>.RE: no failure is turned into success in the functions reachable from its entry points."
